@@ -311,6 +311,10 @@ class Run:
                 target = next((n for n, f in reversed(self.futs) if self.acts[n]['kind'] == arg), None)
                 entry['target'] = target
                 ret = dict(self.futs)[target].cancel() if target is not None else None
+            elif kind == 'soon_kill':
+                # a watchdog callback of the process (``call_soon``) that kills it when it runs -- later, e.g. while the process waits
+                proc.call_soon(lambda: self.apply(['kill', arg], via='callback'))
+                ret = None
             elif kind in ('soon_ok', 'soon_raise'):
                 proc.call_soon(programs._make_cb(proc, 'raise' if kind == 'soon_raise' else 'ok', arg))
                 ret = None
